@@ -103,6 +103,15 @@ func Containers() []interface{} {
 		map[interface{}]interface{}{"a": int64(1), "b": []interface{}{int64(1)}},
 		map[interface{}]interface{}{int64(1): "x", 2.5: nil},
 		map[interface{}]interface{}{"a": float64(1)},
+		// same number of entries, different key sets, nil under the keys the other one lacks
+		map[interface{}]interface{}{"a": nil},
+		map[interface{}]interface{}{"b": nil},
+		map[interface{}]interface{}{"a": nil, "b": int64(2)},
+		map[interface{}]interface{}{"b": int64(2), "c": nil},
+		[]interface{}{map[interface{}]interface{}{"a": nil}},
+		[]interface{}{map[interface{}]interface{}{"b": nil}},
+		map[interface{}]interface{}{"k": map[interface{}]interface{}{"x": nil}},
+		map[interface{}]interface{}{"k": map[interface{}]interface{}{"y": nil}},
 	}
 }
 
